@@ -51,3 +51,77 @@ let () = Reg.register "c18.switch" (fun inp out ->
        end
      | _ -> "bad:unparsable") in
   (model, verdict))
+
+(* ---- second part: Gen/PermInv2 ---- *)
+let bytes_of x = Stdlib.List.map (fun a -> int_of_string (atom a)) (lst x)
+let zs_of x = get_list get_z x
+
+(* c18.toposort: input (dag ids g), output ids in topoSort's order. Model: extracted topo_sort (memoised depth
+   walk + bucket order). Oracle: a permutation of the identities; for a DAG: ascending (longest path to a
+   sink, identity) - computed here without the walk's done-marking. *)
+let () = Reg.register "c18.toposort" (fun inp out ->
+  match lst inp with
+  | [dag; ids; g] ->
+    let dag = get_bool dag in
+    let ids_z = Stdlib.List.map zs_of (lst ids) in
+    let g_l = Stdlib.List.map (fun es -> Stdlib.List.map get_int (lst es)) (lst g) in
+    let model = PermInv2.topo_sort ids_z (Stdlib.List.map (fun es -> Stdlib.List.map nat_of_int es) g_l) in
+    let model_s = L (Stdlib.List.map (put_list put_z) model) in
+    let ids_i = Array.of_list (Stdlib.List.map bytes_of (lst ids)) in
+    let ga = Array.of_list g_l in
+    let outs = Stdlib.List.map bytes_of (lst out) in
+    let verdict =
+      if Stdlib.List.sort compare outs <> Stdlib.List.sort compare (Array.to_list ids_i) then "bad:toposort-not-a-permutation"
+      else if dag then begin
+        let n = Array.length ga in
+        let memo = Array.make n (-1) in
+        let rec h i = if memo.(i) >= 0 then memo.(i) else begin
+          let v = Stdlib.List.fold_left (fun acc e -> max acc (h e + 1)) 0 ga.(i) in memo.(i) <- v; v end in
+        let keyed = Stdlib.List.sort compare (Stdlib.List.init n (fun i -> (h i, ids_i.(i)))) in
+        if Stdlib.List.map snd keyed = outs then "ok" else "bad:toposort-not-ordered-by-height-then-identity"
+      end else "ok" in
+    (model_s, verdict)
+  | _ -> failwith "c18.toposort")
+
+(* c18.imports: input = paths in order of appearance (duplicates possible), output = paths of the import block.
+   Model: go_imports over the first-appearance order of the distinct paths. Oracle: distinct paths, std first,
+   ascending inside each group. *)
+let is_std (p : int list) : bool =
+  let rec first acc = function [] -> Stdlib.List.rev acc | 47 :: _ -> Stdlib.List.rev acc | c :: t -> first (c :: acc) t in
+  not (Stdlib.List.exists (fun c -> c = 46 || c = 45 || c = 95 || (48 <= c && c <= 57)) (first [] p))
+
+let () = Reg.register "c18.imports" (fun inp out ->
+  let paths = Stdlib.List.map bytes_of (lst inp) in
+  let rec uniq seen = function [] -> [] | p :: t -> if Stdlib.List.mem p seen then uniq seen t else p :: uniq (p :: seen) t in
+  let distinct = uniq [] paths in
+  let std_z (p : coq_Z list) = is_std (Stdlib.List.map int_of_z p) in
+  let to_z p = Stdlib.List.map z_of_int p in
+  let model = PermInv2.go_imports std_z (Stdlib.List.map (fun p -> ([], to_z p)) distinct) in
+  let model_s = L (Stdlib.List.map (fun (_, p) -> put_list put_z p) model) in
+  let outs = Stdlib.List.map bytes_of (lst out) in
+  let stds = Stdlib.List.sort compare (Stdlib.List.filter is_std distinct)
+  and others = Stdlib.List.sort compare (Stdlib.List.filter (fun p -> not (is_std p)) distinct) in
+  let verdict = if outs = stds @ others then "ok" else "bad:import-block-not-canonical" in
+  (model_s, verdict))
+
+(* c18.comments: input = (token, constant) per lexer rule in rule order ("" = not a constant), output =
+   (token, Comment) per token. Model: token_comments, then the writes in the order of the comments map as the
+   model built it. Oracle: Comment = the common constant of the token's rules, "" when they differ. *)
+let () = Reg.register "c18.comments" (fun inp out ->
+  let rules = Stdlib.List.map (fun r -> match lst r with [t; v] -> (get_z t, zs_of v) | _ -> failwith "rule") (lst inp) in
+  let cm = PermInv2.token_comments rules in
+  let syms = PermInv2.apply_writes cm (fun _ -> [z_of_int 63]) in
+  let toks = Stdlib.List.sort_uniq compare (Stdlib.List.map (fun (t, _) -> int_of_z t) rules) in
+  let model_s = L (Stdlib.List.map (fun t -> L [put_int t; put_list put_z (syms (z_of_int t))]) toks) in
+  let verdict =
+    try
+      Stdlib.List.iter (fun o -> match lst o with
+        | [t; c] ->
+          let t = get_int t and c = bytes_of c in
+          let vals = Stdlib.List.filter_map (fun (t', v) -> if int_of_z t' = t then Some (Stdlib.List.map int_of_z v) else None) rules in
+          let expect = (match vals with [] -> [] | v :: rest -> if Stdlib.List.for_all (fun x -> x = v) rest then v else []) in
+          if c <> expect then raise Exit
+        | _ -> failwith "comment") (lst out);
+      "ok"
+    with Exit -> "bad:token-comment-is-not-the-common-constant" in
+  (model_s, verdict))
